@@ -757,7 +757,8 @@ def fastpath_coherent(ctx):
                     ins_nodes = set()
                     for i_ in inserts:
                         ins_nodes.update(g_.nodes_of(i_))
-                    ctx.check(g_.every_path_to(ins_nodes, g_.nodes_of(a)), a, "every path that records this function in the table first evicts its namesakes",
+                    ctx.check(g_.every_path_to(ins_nodes, g_.nodes_of(a)) or g_.every_path_from(ins_nodes, g_.nodes_of(a), None, skip_exc=True), a,
+                              "every path that records this function in the table also runs the eviction of its namesakes (before or after)",
                               "the table insert can be reached without running the eviction loop")
                     early = [x for s_ in a.body for x in walk_local(s_) if isinstance(x, (ast.Break, ast.Return))]
                     ctx.check(not early and not a.orelse, a, "the eviction loop visits every entry (no break / return)",
@@ -766,9 +767,16 @@ def fastpath_coherent(ctx):
                     facts = cond_facts([c_ for c_ in g_.conditions_at(g_.nodes_of(n)) if in_block(c_[0], a.body)])
                     var = a.target.id if isinstance(a.target, ast.Name) else "?"
                     same_id = [f for f in facts if f[1] and f[0] in ("_build_func_identifier(%s) == self.func_id" % var, "self.func_id == _build_func_identifier(%s)" % var)]
-                    rest = [f for f in facts if f not in same_id and f != ("%s is not self.func" % var, True) and f != ("%s is self.func" % var, False)]
+                    keeps_self = [f for f in facts if f in (("%s is not self.func" % var, True), ("%s is self.func" % var, False))]
+                    vacuous = [f for f in facts if f in (("%s is not self" % var, True), ("%s is self" % var, False))]   # the keys are functions, never the wrapper
+                    rest = [f for f in facts if f not in same_id and f not in keeps_self and f not in vacuous]
                     ctx.check(bool(same_id) and not rest, n, "evicted: every other function with the same identifier",
                               "eviction is conditioned on %s, not on `same identifier (and not this function)`: namesakes validated against the replaced source stay on the fast path" % facts)
+                    if same_id and not rest and not keeps_self:
+                        # the loop also evicts this function's own entry: it must be recorded afterwards
+                        ctx.check(g_.every_path_from(g_.nodes_of(a), ins_nodes, None, skip_exc=True), a, "the loop does not spare this function's own entry, which is (re)recorded after it",
+                                  "the eviction loop also removes this function's own entry and the entry is recorded BEFORE the loop: the function is never on the fast path, every call re-reads and compares the source "
+                                  "file, and a session still running an older version of an edited file stores the new source next to values of the old code")
         for n in inv:
             # must be able to hit entries of *other* functions: clear(), or pop/del inside a loop over the table
             if isinstance(n, ast.Call) and call_name(n) == "_FUNCTION_HASHES.clear":
@@ -785,6 +793,13 @@ def fastpath_coherent(ctx):
     ctx.check(bool(fast) and any(call_name(c) == "self._hash_func" for c in calls_in(ck)), fast[0] if fast else ck, "fast path compares the recorded (id, hash, code hash) with the current one")
     mc = M(ctx, "Memory.clear")
     ctx.check(any(call_name(c) == "_FUNCTION_HASHES.clear" for c in calls_in(mc)), mc, "Memory.clear() drops the whole fast-path table", "Memory.clear() leaves stale fast-path entries")
+    gmc = cfg_of(mc)
+    sc_ = [c for c in calls_in(mc) if call_name(c) == "self.store_backend.clear"]
+    tc_ = [c for c in calls_in(mc) if call_name(c) == "_FUNCTION_HASHES.clear"]
+    for c in sc_:
+        ok_ = bool(tc_) and gmc.every_path_from(gmc.nodes_of(c), gmc.nodes_of_all(tc_), None, skip_exc=True)
+        ctx.check(ok_, c, "whenever the store is wiped the fast-path table is wiped AFTERWARDS, on every path (a function validated between the two steps would otherwise stay validated against a deleted func_code.py)",
+                  "the store can be wiped without wiping _FUNCTION_HASHES (e.g. with warn=False): functions validated before the wipe skip re-writing func_code.py, so their new entries are invalid for every other process")
     m = ctx.repo.mod(MEM)
     d = [a for a in m.tree.body if isinstance(a, ast.Assign) and "_FUNCTION_HASHES" in stores_to(a)]
     ctx.check(bool(d) and call_name(d[0].value) == "weakref.WeakKeyDictionary", d[0] if d else m.tree.body[0], "the table is weak-keyed by function object")
@@ -987,12 +1002,49 @@ def all_limits(ctx):
 def delete_all(ctx):
     en = S(ctx, "StoreBackendMixin.enforce_store_limits")
     loops = [l for l in nodes_of_type(en, ast.For)]
-    ctx.need(loops, "enforce_store_limits has no loop")
-    lp = loops[0]
-    src = _local_def(en, dotted(lp.iter) or "")
+    wl = [l for l in nodes_of_type(en, ast.While)]
+    item_var = None
+    if not loops and wl:
+        # consuming form: `while L: item = L.pop(k)` - the selection is least-recently-used first, so only popping from
+        # the FRONT keeps the evicted set an LRU prefix at every moment (an interruption leaves older entries behind otherwise)
+        lp = wl[0]
+        seq = dotted(lp.test)
+        pops = [a for a in lp.body if isinstance(a, ast.Assign) and isinstance(a.value, ast.Call) and call_name(a.value) == "%s.pop" % seq]
+        ctx.check(bool(seq) and bool(pops), lp, "the loop consumes the selected items one by one", "enforce_store_limits' while loop does not consume the selected items")
+        if pops:
+            item_var = dotted(pops[0].targets[0])
+            ctx.check(bool(pops[0].value.args) and const_value(pops[0].value.args[0]) == 0, pops[0], "items are taken from the front of the selection (least recently used first)",
+                      "`%s` takes the selected items from the END of the selection: entries are evicted most-recent-first, so an interrupted or partly failing eviction leaves an older entry while a newer one is gone" % unparse(pops[0]))
+        src = _local_def(en, seq or "")
+    else:
+        ctx.need(loops, "enforce_store_limits has no loop")
+        lp = loops[0]
+        it = lp.iter
+        rev = isinstance(it, ast.Call) and call_name(it) == "reversed" or (isinstance(it, ast.Subscript) and isinstance(it.slice, ast.Slice) and it.slice.step is not None)
+        ctx.check(not rev, lp, "items are visited in selection order (least recently used first)", "the eviction loop visits the selection in reverse: most recently used entries go first")
+        src = _local_def(en, dotted(lp.iter) or "")
+        item_var = dotted(lp.target)
     ctx.check(bool(src) and isinstance(src[0].value, ast.Call) and call_name(src[0].value) == "self._get_items_to_delete", lp, "the loop runs over exactly the selected items")
     cl = [c for c in calls_in(lp) if call_name(c) == "self.clear_location"]
-    ctx.check(len(cl) == 1 and unparse(cl[0].args[0]) == "%s.path" % dotted(lp.target), cl[0] if cl else lp, "every selected item's directory is deleted", "selected items are not all deleted")
+    rel_form = False
+    if not cl:
+        # equivalent form: the item is addressed relatively to the store, clear_item(<item.path minus the root prefix>).
+        # Sound only if the prefix that is cut off is the very expression the inventory walk starts from.
+        ci = [c for c in calls_in(lp) if call_name(c) == "self.clear_item" and c.args]
+        gi_ = S(ctx, "FileSystemStoreBackend.get_items")
+        wk_ = [l for l in nodes_of_type(gi_, ast.For) if isinstance(l.iter, ast.Call) and call_name(l.iter) == "os.walk" and l.iter.args]
+        root2 = unparse(wk_[0].iter.args[0]) if wk_ else None
+        for c in ci:
+            a0 = c.args[0]
+            sub = a0.func.value if isinstance(a0, ast.Call) and call_attr(a0) == "split" and isinstance(a0.func, ast.Attribute) else None
+            ok_ = isinstance(sub, ast.Subscript) and unparse(sub.value) == "%s.path" % item_var and isinstance(sub.slice, ast.Slice) and sub.slice.lower is not None and sub.slice.upper is None \
+                and unparse(sub.slice.lower) in ("len(%s) + 1" % root2, "1 + len(%s)" % root2) and unparse(a0.args[0]) == "os.sep"
+            ctx.check(bool(ok_), c, "every selected item is deleted through clear_item(<its path relative to %s>), the root the inventory walks" % root2,
+                      "items are deleted through clear_item(%s), but the inventory builds their paths from `%s`: the prefix cut off is not the prefix they have, so clear_item finds nothing and no limit is enforced" % (unparse(a0, 80), root2))
+            rel_form = True
+            cl = [c]
+    if not rel_form:
+        ctx.check(len(cl) == 1 and unparse(cl[0].args[0]) == "%s.path" % item_var, cl[0] if cl else lp, "every selected item's directory is deleted", "selected items are not all deleted")
     if cl:
         st = enclosing_stmt(cl[0])
         chain = [a for a in ancestors(st) if a is not lp and not isinstance(a, ast.FunctionDef)]
@@ -1027,7 +1079,9 @@ def inventory(ctx):
               "inventory regex %r does not match the %s digest length %s: entries are invisible to reduce_size" % (pat, hname, hexlen))
     ctx.check(unparse(rx[0].args[1]) == "os.path.basename(dirpath)", rx[0], "matched against the directory's base name")
     walk = [l for l in nodes_of_type(gi, ast.For) if isinstance(l.iter, ast.Call) and call_name(l.iter) == "os.walk"]
-    ctx.check(bool(walk) and unparse(walk[0].iter.args[0]) == "self.location", walk[0] if walk else gi, "the whole store is walked")
+    root_ = unparse(walk[0].iter.args[0]) if walk and walk[0].iter.args else None
+    ctx.check(root_ in ("self.location", "os.path.abspath(self.location)", "os.path.normpath(self.location)", "os.path.realpath(self.location)"), walk[0] if walk else gi, "the whole store is walked (root %s)" % root_,
+              "the inventory walks %s, not the store location" % root_)
     ds = _local_def(gi, "dirsize")
     ctx.check(bool(ds) and unparse(ds[0].value) == "sum((os.path.getsize(fn) for fn in full_filenames))", ds[0] if ds else gi, "entry size = sum over all files of the entry directory")
     ff = _local_def(gi, "full_filenames")
